@@ -262,7 +262,7 @@ func explore(t *rapid.T, sc scenario) (conflict string, nontrivial bool, w *worl
 		w.known[v] = map[int]bool{0: true}
 		w.cur[v] = g
 	}
-	strategy := rapid.SampledFrom([]string{"random", "split-brain", "split-brain", "switch-back"}).Draw(t, "strategy")
+	strategy := []string{"random", "split-brain", "split-brain", "switch-back", "private-branch", "private-branch"}[int(rapid.Uint32().Draw(t, "strategy")%6)]
 	slots := rapid.IntRange(8, 40).Draw(t, "slots")
 	groups := 2 + rapid.IntRange(0, 1).Draw(t, "thirdGroup")
 	group := make([]int, n)
@@ -276,8 +276,73 @@ func explore(t *rapid.T, sc scenario) (conflict string, nontrivial bool, w *worl
 	w.hist = append(w.hist, fmt.Sprintf("strategy=%s slots=%d groups=%v partitioned=%v", strategy, slots, group, partitioned))
 	sameGroup := func(a, b int) bool { return !partitioned || group[a] == group[b] }
 	forkHeight := uint32(0)
-	for s := 0; s < slots && len(w.blocks) < 70; s++ {
+	// private-branch: at a drawn slot one Byzantine validator builds a branch of its own, block after block (the BFT rules
+	// know no slots; timing is the adversary's), reporting an honest, a stale or a zero maxHeightGenerated, then publishes it
+	privateAt := -1
+	if strategy == "private-branch" {
+		privateAt = rapid.IntRange(3, slots-1).Draw(t, "privateAt")
+		partitioned = false
+	}
+	privateBranch := func(s int) {
+		var zs []int
+		for v := 0; v < n; v++ {
+			if w.byz[v] {
+				zs = append(zs, v)
+			}
+		}
+		if len(zs) == 0 {
+			return
+		}
+		z := rapid.SampledFrom(zs).Draw(t, "privateValidator")
+		// fork point: an ancestor of some honest tip, a few blocks back
+		tip := w.cur[rapid.IntRange(0, n-1).Draw(t, "privateTipOf")]
+		back := rapid.IntRange(1, 10).Draw(t, "privateBack")
+		base := tip
+		for i := 0; i < back && base.parent != nil; i++ {
+			base = base.parent
+		}
+		// half of the time fork right below what some view already reports as final: the place where a conflict would show
+		if top, _ := w.checkSafety(); top > 1 && rapid.Bool().Draw(t, "privateBelowFinality") {
+			if a := tip.ancestorAt(top - 1 - rapid.Uint32Range(0, 1).Draw(t, "privateBelow")); a != nil {
+				base = a
+			}
+		}
+		length := rapid.IntRange(3, 16).Draw(t, "privateLength")
+		mode := rapid.SampledFrom([]string{"honest", "stale", "stale", "zero"}).Draw(t, "privateMhg")
+		stale := genOnChain(base, z)
+		cur := base
+		var built []*blk
+		for i := 0; i < length && len(w.blocks) < 90; i++ {
+			mhg := genOnChain(cur, z)
+			switch mode {
+			case "stale":
+				mhg = stale
+			case "zero":
+				mhg = 0
+			}
+			b := w.newBlock(cur, z, mhg, true)
+			if b == nil {
+				// an honest node rejects this header: try the honest-looking value instead
+				b = w.newBlock(cur, z, genOnChain(cur, z), true)
+				if b == nil {
+					break
+				}
+			}
+			w.hist = append(w.hist, fmt.Sprintf("slot %d: BYZ v%d private #%d on #%d (h=%d mhg=%d mhp=%d) -> prevoted=%d precommitted=%d", s, z, b.id, cur.id, b.h, b.mhg, b.mhp, b.sPrev, b.sPrec))
+			built = append(built, b)
+			cur = b
+		}
+		for _, b := range built {
+			for v := 0; v < n; v++ {
+				w.deliver(v, b)
+			}
+		}
+	}
+	for s := 0; s < slots && len(w.blocks) < 90; s++ {
 		owner := s % n
+		if s == privateAt {
+			privateBranch(s)
+		}
 		if rapid.IntRange(0, 9).Draw(t, "missed") == 0 {
 			continue
 		}
@@ -320,6 +385,20 @@ func explore(t *rapid.T, sc scenario) (conflict string, nontrivial bool, w *worl
 		}
 		// Byzantine owner
 		switch strategy {
+		case "private-branch":
+			// outside its private branch the validator behaves honestly-looking on the best tip it knows
+			var tip *blk
+			for v := 0; v < n; v++ {
+				if tip == nil || better(w.cur[v], tip) {
+					tip = w.cur[v]
+				}
+			}
+			if b := w.newBlock(tip, owner, genOnChain(tip, owner), true); b != nil {
+				w.hist = append(w.hist, fmt.Sprintf("slot %d: BYZ v%d forges #%d on #%d (h=%d mhg=%d mhp=%d) -> prevoted=%d precommitted=%d", s, owner, b.id, tip.id, b.h, b.mhg, b.mhp, b.sPrev, b.sPrec))
+				for v := 0; v < n; v++ {
+					w.deliver(v, b)
+				}
+			}
 		case "split-brain", "switch-back":
 			// one honest-looking block on the best tip of every group, delivered to that group only
 			for gidx := 0; gidx < groups; gidx++ {
@@ -467,6 +546,9 @@ func TestExplorerPower(t *testing.T) {
 			found++
 		}
 	})
+	if runs > 300 {
+		runs = 300
+	}
 	evid.R.Note("explorer power self-test: with Byzantine weight above W/3 a conflicting finalization was produced in %d of %d generated trees", found, runs)
 	if found == 0 {
 		evid.R.Inconclusive("explorer power self-test produced no conflict beyond the fault bound in %d trees", runs)
